@@ -244,12 +244,12 @@ let main_seq file do_abs =
               | _ -> ());
              let ok = agree s' r o &&
                       (match h, r with
-                       | HShort _, RWritten _ -> nospace_plausible c (n_of_int pfb) (n_of_int pfi)
+                       | HShort _, RWritten _ -> nospace_plausible !params.p_wtmax c (n_of_int pfb) (n_of_int pfi)
                        | HNoSpace, RStatus ERR ->
                          let (s2, r2) = step !params !st c HNone in
                          ignore s2;
                          (match r2 with RStatus ERR | RStatus STALE | RStatus NOTSUPP -> true
-                                      | _ -> nospace_plausible c (n_of_int pfb) (n_of_int pfi))
+                                      | _ -> nospace_plausible !params.p_wtmax c (n_of_int pfb) (n_of_int pfi))
                        | _ -> true) in
              let diag = match r, o with
                | RData (dd, _), OData (N0, od, _) ->
@@ -474,6 +474,7 @@ let main_crash file =
   let in_g = ref false in
   let g_hdr = ref ("", "", "", "", 0, 0) in
   let g_steps = ref [] in
+  let g_post = ref [] and g_post_alloc = ref None in   (* the blocks written after the cut, as they read after the suffix *)
   let nimg = ref 0 and nok = ref 0 and nbad = ref 0 in
   let evarr = ref [||] in
   (* incremental image at the last barrier *)
@@ -563,7 +564,20 @@ let main_crash file =
                  let (s', r) = step !params !s c (hint_of c o) in
                  s := s';
                  if not (agree s' r o) then add (Printf.sprintf "suffix-%s:expected=%s observed_code=%d" nm (show_reply r) (int_of_n (code_of o)))
-               | _ -> add ("suffix-" ^ nm ^ ":panic")) (List.rev !g_steps)
+               | _ -> add ("suffix-" ^ nm ^ ":panic")) (List.rev !g_steps);
+           (* the disk the recovered server leaves behind: invariant, abstraction = reference after the suffix, allocators *)
+           (match !g_post_alloc with
+            | Some (fb2, fi2, quiet) when !bad = [] ->
+              let logical2 = List.fold_left (fun d (a, b) -> disk_set d a b) logical (List.rev !g_post) in
+              (* quiet: the suffix touched every object whose freeing was cut short, so nothing may be left half freed *)
+              let ar2 = abs_disk !params.p_name_max !params.p_maxfilesize !sz quiet logical2 in
+              if ar2.r_errs <> [] then add ("post-suffix-wf=" ^ String.concat "," (List.map show_err (take 4 ar2.r_errs)));
+              let mm2 = cmp_state !s ar2 in
+              if mm2 <> [] then add ("post-suffix-abs=" ^ String.concat "," (List.map show_mm (take 4 mm2)));
+              let dfb2 = int_of_n !sz - int_of_n l.l_dstart - int_of_n ar2.r_used_blocks in
+              let dfi2 = int_of_n l.l_ninode - int_of_n ar2.r_used_inodes in
+              if dfb2 <> fb2 || dfi2 <> fi2 then add (Printf.sprintf "post-suffix-alloc=mem(%d,%d)/disk(%d,%d)" fb2 fi2 dfb2 dfi2)
+            | _ -> ())
          end
        end);
     if !bad = [] then (incr nok; Printf.printf "G %s %s OK\n" ns pat)
@@ -605,7 +619,12 @@ let main_crash file =
        | "V" :: "w" :: a :: d :: _ -> let b = bytes_of_hex d in register_block b d; evs := EvW (n_of_string a, b) :: !evs
        | "G" :: n :: pat :: status :: dg :: fb :: fi :: _ ->
          if Array.length !states = 0 then finish_main ();
-         in_g := true; g_steps := []; g_verfs := []; g_hdr := (n, pat, status, dg, int_of_string fb, int_of_string fi)
+         in_g := true; g_steps := []; g_verfs := []; g_post := []; g_post_alloc := None;
+         g_hdr := (n, pat, status, dg, int_of_string fb, int_of_string fi)
+       | "GD" :: a :: d :: _ ->
+         let b = if d = "z" then zeros (n_of_int 4096) else bytes_of_hex d in
+         g_post := (n_of_string a, b) :: !g_post
+       | "GA" :: fb :: fi :: q :: _ -> g_post_alloc := Some (int_of_string fb, int_of_string fi, q = "1")
        | "GE" :: _ -> judge_image (); in_g := false
        | _ -> ()
      done
